@@ -280,7 +280,27 @@ def contains(ex, st: State, cont: V, item: V, node):
 # ---------------------------------------------------------------------------------------------------------------
 # containers
 
+def _track_keys(st: State, d: V, k: V, drop=False):
+    """Python-level bookkeeping for dicts created in this execution whose keys are all literal strings (needed for
+    f(**d)): ghost entry 'c:dictkeys:<oid>' = tuple of keys, or None once a non-literal key was stored / a key deleted."""
+    oid = z3.simplify(d.e)
+    if not z3.is_int_value(oid):
+        return
+    name = 'c:dictkeys:%d' % oid.as_long()
+    if name not in st.ghost:
+        return
+    cur = st.ghost[name]
+    ke = z3.simplify(k.e) if k.kind == 'str' else None
+    if drop or cur is None or ke is None or not z3.is_string_value(ke):
+        st.ghost[name] = None
+        return
+    key = ke.as_string()
+    if key not in cur:
+        st.ghost[name] = cur + (key,)
+
+
 def dict_set(ex, st: State, d: V, k: V, v: V):
+    _track_keys(st, d, k)
     kb = st.box(k)
     dk = z3.Select(st.get_arr('DK'), d.e)
     dv = z3.Select(st.get_arr('DV'), d.e)
@@ -291,6 +311,7 @@ def dict_set(ex, st: State, d: V, k: V, v: V):
 
 
 def dict_del(ex, st: State, d: V, k: V):
+    _track_keys(st, d, k, drop=True)
     kb = st.box(k)
     dk = z3.Select(st.get_arr('DK'), d.e)
     dn = z3.Select(st.get_arr('DN'), d.e)
